@@ -74,7 +74,7 @@ def check_su2(repo, chk, parts=("algebra", "euler")):
         "unary:clip_by_value": lambda tr, a: a,
         # x % (2 pi) = W(x - pi) + pi with W the wrap to (-pi, pi]
         "binop:Mod": lambda tr, a, b: (Wrap(a - sp.pi) + sp.pi) if sp.simplify(b - 2 * sp.pi) == 0 or abs(float(b) - 6.283185307179586) < 1e-12 else (_ for _ in ()).throw(Unmodelled("modulo by %s" % b)),
-        A + "SU2M": lambda tr, args, kwargs, n: {"x": args[0]},
+        A + "SU2M": lambda tr, args, kwargs, n: {"x": args[0] if args else next(iter(kwargs.values()))},
         A + "EulerAngle": lambda tr, args, kwargs, n: dict(zip(("alpha", "beta", "gamma"), _bind(["alpha", "beta", "gamma"], args, kwargs, {"alpha": 0, "beta": 0, "gamma": 0}))),
     }
     def generic_policy(cond, tr_):
